@@ -72,14 +72,43 @@ def extract():
     if len(opt) != 1 or not isinstance(opt[0], int) or opt[0] < 0:
         raise OmenExtractError("Optimizer construction not as expected: %r" % opt)
     C["omen_optimizer_max_length"] = opt[0]
-    # is guessing_info/omen_guess_number ever removed from the save config?  (as coded: never)
-    cleared = False
+    # guessing_info/omen_guess_number: never removed (as first coded), or removed in
+    # CrackingSession.run right after restore_omen under EXACTLY `if not self.pcfg.omen_exit:`
+    # (the model's sess_restore); anything else fails closed
+    removes = []
     for rel in ("lib_guesser/cracking_session.py", "pcfg_guesser.py", "lib_guesser/pcfg_grammar.py"):
-        for n in ast.walk(_parse(rel)):
+        tree = _parse(rel)
+        for n in ast.walk(tree):
             if isinstance(n, ast.Call) and isinstance(n.func, ast.Attribute) and n.func.attr == "remove_option":
                 vals = [a.value for a in n.args if isinstance(a, ast.Constant)]
                 if "omen_guess_number" in vals:
-                    cleared = True
+                    removes.append((rel, n))
+    cleared = False
+    if removes:
+        if len(removes) != 1 or removes[0][0] != "lib_guesser/cracking_session.py":
+            raise OmenExtractError("omen_guess_number is removed at an unexpected place: %r" % [r for r, _ in removes])
+        call = removes[0][1]
+        run = _func(_parse("lib_guesser/cracking_session.py"), "run", "CrackingSession")
+        guard = None
+        for n in ast.walk(run):
+            if isinstance(n, ast.If) and not n.orelse and len(n.body) == 1 and isinstance(n.body[0], ast.Expr) \
+                    and isinstance(n.body[0].value, ast.Call) and (n.body[0].value.lineno, n.body[0].value.col_offset) == (call.lineno, call.col_offset):
+                guard = n
+        if guard is None:
+            raise OmenExtractError("remove_option(omen_guess_number) is not the single statement of an `if` in CrackingSession.run")
+        t = guard.test
+        ok = (isinstance(t, ast.UnaryOp) and isinstance(t.op, ast.Not) and isinstance(t.operand, ast.Attribute)
+              and t.operand.attr == "omen_exit" and isinstance(t.operand.value, ast.Attribute)
+              and t.operand.value.attr == "pcfg" and isinstance(t.operand.value.value, ast.Name)
+              and t.operand.value.value.id == "self")
+        if not ok:
+            raise OmenExtractError("omen_guess_number is removed under an unexpected condition: %s" % ast.unparse(t))
+        # and it must directly follow the restore_omen call inside the has_option block
+        src_calls = [n for n in ast.walk(run) if isinstance(n, ast.Call) and isinstance(n.func, ast.Attribute)
+                     and n.func.attr == "restore_omen"]
+        if len(src_calls) != 1 or not (src_calls[0].lineno < guard.lineno):
+            raise OmenExtractError("remove_option(omen_guess_number) does not follow the restore_omen call")
+        cleared = True
     sets = 0
     for n in ast.walk(_parse("lib_guesser/cracking_session.py")):
         if isinstance(n, ast.Call) and isinstance(n.func, ast.Attribute) and n.func.attr == "set":
